@@ -1378,6 +1378,10 @@ func (area) Run(c *core.Ctx) error {
 			runLeaf(c, rng)
 			continue
 		}
+		if i%20 == 13 {
+			runPlanExec(c, peGen(rng))
+			continue
+		}
 		if i%50 == 7 {
 			// random order of 1-5 pooled stages, each Complete() hook panics with probability 1/3
 			var sb strings.Builder
